@@ -9,6 +9,7 @@
 package c12
 
 import (
+	"errors"
 	"fmt"
 	"os"
 	"runtime"
@@ -35,17 +36,21 @@ type workload struct {
 	feedback bool
 	backlog  int // packets queued up front (pacing interceptor driven exactly at its rate)
 	resend   int // percent of outgoing packets that repeat a recently sent sequence number (retransmission without RTX)
+	failW    bool // the next writer of local stream 1 fails every write
+	rtcpHeavy bool // feedback read and application RTCP written on EVERY packet step (2 packets each)
 }
 
 var workloads = []workload{
-	{"in-order+feedback", 0, 0, false, true, 0, 0},
-	{"in-order/no-feedback", 0, 0, false, false, 0, 0},
-	{"loss5+feedback", 5, 0, false, true, 0, 0},
-	{"loss5/no-feedback", 5, 0, false, false, 0, 0},
-	{"dup+reorder+feedback", 2, 5, true, true, 0, 0},
-	{"dup+reorder/no-feedback", 2, 5, true, false, 0, 0},
-	{"resend10+feedback", 0, 0, false, true, 0, 10},
-	{"resend10/no-feedback", 0, 0, false, false, 0, 10},
+	{"in-order+feedback", 0, 0, false, true, 0, 0, false, false},
+	{"in-order/no-feedback", 0, 0, false, false, 0, 0, false, false},
+	{"loss5+feedback", 5, 0, false, true, 0, 0, false, false},
+	{"loss5/no-feedback", 5, 0, false, false, 0, 0, false, false},
+	{"dup+reorder+feedback", 2, 5, true, true, 0, 0, false, false},
+	{"dup+reorder/no-feedback", 2, 5, true, false, 0, 0, false, false},
+	{"resend10+feedback", 0, 0, false, true, 0, 10, false, false},
+	{"resend10/no-feedback", 0, 0, false, false, 0, 10, false, false},
+	{"next-writer-fails+feedback", 0, 0, false, true, 0, 0, true, false},
+	{"rtcp-on-every-step", 0, 0, false, true, 0, 0, false, true},
 }
 
 // backlogWorkload keeps the pacing interceptor's queue non-empty for the whole run: the pacer
@@ -91,10 +96,18 @@ func measure() heapPoint {
 }
 
 // counting writers: nothing is stored
-type nullRTP struct{ n atomic.Int64 }
+type nullRTP struct {
+	n    atomic.Int64
+	fail bool
+}
+
+var errNextWriter = errors.New("verif: next writer fails")
 
 func (w *nullRTP) Write(h *rtp.Header, p []byte, _ interceptor.Attributes) (int, error) {
 	w.n.Add(1)
+	if w.fail {
+		return 0, errNextWriter
+	}
 	return h.MarshalSize() + len(p), nil
 }
 
@@ -112,6 +125,7 @@ type driver struct {
 	rr      [2]interceptor.RTPReader
 	rf      [2]*obs.Feed
 	rtcpR   interceptor.RTCPReader
+	rtcpW   interceptor.RTCPWriter
 	rtcpIn  *obs.Feed
 	lseq    [2]uint16
 	rseq    [2]uint16
@@ -130,15 +144,15 @@ type driver struct {
 	single  bool // only one remote stream carries traffic (the jitter buffer interceptor owns ONE buffer)
 }
 
-func newDriver(c *vf.Case, b *zoo.Built) *driver {
+func newDriver(c *vf.Case, b *zoo.Built, wl workload) *driver {
 	clk := &obs.Clock{}
 	d := &driver{c: c, b: b, rbuf: make([]byte, 1500), payload: make([]byte, 50), rng: c.R.Fork()}
-	_ = b.I.BindRTCPWriter(&nullRTCP{})
+	d.rtcpW = b.I.BindRTCPWriter(&nullRTCP{})
 	d.rtcpIn = obs.NewFeed(clk)
 	d.rtcpR = b.I.BindRTCPReader(d.rtcpIn)
 	for i := 0; i < 2; i++ {
 		lo := zoo.StreamOpts{SSRC: uint32(1000 * (i + 1)), PT: 96, ClockRate: 90000, Nack: true, TWCCID: twccID * (1 - i), RTX: i == 0, FEC: i == 0}
-		d.lw[i] = b.I.BindLocalStream(zoo.Info(lo), &nullRTP{})
+		d.lw[i] = b.I.BindLocalStream(zoo.Info(lo), &nullRTP{fail: wl.failW && i == 1})
 		ro := zoo.StreamOpts{SSRC: uint32(3000 + 1000*i), PT: 96, ClockRate: 90000, Nack: true, PLI: true, TWCCID: twccID * (1 - i)}
 		d.rf[i] = obs.NewFeed(clk)
 		d.rf[i].NoLog = true
@@ -244,6 +258,19 @@ func (d *driver) feedback(n int) {
 	}
 	d.rtcpIn.Push(obs.FeedItem{Data: raw})
 	_, _, _ = d.rtcpR.Read(d.rbuf, interceptor.Attributes{})
+	// the application's own RTCP goes out through the interceptor too: reports with several
+	// blocks, feedback requests, extended reports with several reference-time blocks
+	ntp := uint64(d.step) << 22
+	_, _ = d.rtcpW.Write([]rtcp.Packet{
+		&rtcp.SenderReport{SSRC: 1000, NTPTime: ntp, RTPTime: d.ts, PacketCount: uint32(d.step), OctetCount: uint32(d.step) * 50},
+		&rtcp.ReceiverReport{SSRC: 1000, Reports: []rtcp.ReceptionReport{{SSRC: 3000, LastSequenceNumber: uint32(d.rseq[0])}, {SSRC: 4000, LastSequenceNumber: uint32(d.rseq[1])}}},
+		&rtcp.ExtendedReport{SenderSSRC: 1000, Reports: []rtcp.ReportBlock{
+			&rtcp.ReceiverReferenceTimeReportBlock{NTPTimestamp: ntp}, &rtcp.ReceiverReferenceTimeReportBlock{NTPTimestamp: ntp + 1<<20},
+			&rtcp.DLRRReportBlock{Reports: []rtcp.DLRRReport{{SSRC: 3000, LastRR: uint32(ntp >> 16), DLRR: 7}}}}},
+		&rtcp.PictureLossIndication{SenderSSRC: 1000, MediaSSRC: 3000},
+		&rtcp.TransportLayerNack{SenderSSRC: 1000, MediaSSRC: 3000, Nacks: []rtcp.NackPair{{PacketID: d.rseq[0] - 2, LostPackets: 3}}},
+		&rtcp.FullIntraRequest{SenderSSRC: 1000, MediaSSRC: 3000, FIR: []rtcp.FIREntry{{SSRC: 3000, SequenceNumber: uint8(d.step)}}},
+	}, interceptor.Attributes{})
 }
 
 func (d *driver) runSteps(n int, wl workload) {
@@ -256,7 +283,9 @@ func (d *driver) runSteps(n int, wl workload) {
 		if !d.single {
 			d.incoming(1, wl)
 		}
-		if wl.feedback && d.step%100 == 0 {
+		if wl.rtcpHeavy {
+			d.feedback(2)
+		} else if wl.feedback && d.step%100 == 0 {
 			d.feedback(100)
 		}
 		if d.step%d.burst == 0 {
@@ -298,7 +327,7 @@ func runSteady(c *vf.Case, kind zoo.Kind, wl workload) {
 			return
 		}
 		desc = b.Desc
-		d := newDriver(c, b)
+		d := newDriver(c, b, wl)
 		d.single = kind == zoo.JitterBuffer
 		d.outGaps = wl.loss > 0 || wl.dup > 0
 		d.resend = wl.resend
@@ -366,6 +395,12 @@ func fbClass(wl workload) string {
 	}
 	if wl.resend > 0 {
 		s += "/resent-numbers"
+	}
+	if wl.rtcpHeavy {
+		s += "/rtcp-on-every-step"
+	}
+	if wl.failW {
+		s += "/next-writer-fails"
 	}
 	return s
 }
